@@ -1,12 +1,14 @@
 """C15: generated source text is a pure function of the method description.
 
-Oracle (implementation level, independent of the model): every program is generated in
-subprocesses with PYTHONHASHSEED in 8 values; inside each, one forked child per configuration
-(statement containers as list / frozenset, statements, dependency sets and the phase dict built in
-permuted order, with / without a preceding unrelated generator run in the same process) produces
-the Python text, the Fortran text and the real interpreter's event list.  All configurations of
-one program must agree byte for byte; a difference is reported with the two configurations and a
-unified diff excerpt.
+Oracle (implementation level, independent of the model): 8 values of PYTHONHASHSEED x 6
+configurations (statement containers as list / frozenset / tuple; statements, dependency sets and
+the phase dict built in permuted order; another rotation of the program list) = 48 "lanes", each a
+fresh interpreter process that generates ALL programs one after the other with new generator
+objects -- so every program is also produced after different predecessors in the same process.
+Observed per program: sha256 of the Python text, of the Fortran text and of the real
+interpreter's event list.  All lanes must agree byte for byte; a difference is classified (hash
+seed / container order / history), shrunk, and reported with the two configurations and a unified
+diff excerpt.
 
 Tie to the model (coq/model/Determ.v): the real code of the modelled iteration sites
 (SelfDependencyEliminator.map_statement, var_to_last_dependent_statement_mapping,
@@ -143,7 +145,7 @@ def user_types():
 def fortran_text(code, name="m"):
     import dagrt.codegen.fortran as f
     cg = f.CodeGenerator(name, function_registry=registry(), user_type_map=user_types(),
-                         timing_function="second")
+                         timing_function="second", emit_instrumentation=True)
     return cg(code)
 
 
@@ -706,7 +708,7 @@ def observe_sites(prog, rev, k, cfg=None):
         obs["s1"] = s1
         # ---- the whole Fortran generator, with the calls of interest recorded
         cg = f.CodeGenerator("m", function_registry=registry(), user_type_map=user_types(),
-                             timing_function="second")
+                             timing_function="second", emit_instrumentation=True)
         rec = {"ctx": None, "calls": [], "order": [], "leaves": {}, "kinds": None}
         o_for, o_var, o_lf, o_la, o_end = (cg.emit_deinit_for_last_usage_of_vars, cg.emit_variable_deinit,
                                            cg.lower_function, cg.lower_ast, cg.emit_def_end)
@@ -1094,7 +1096,8 @@ def gen_programs(tier, seed):
 def main(tier):
     rep = common.Reporter(PID, tier)
     seed = common.seed()
-    ps = common.proof_stage(rep, PID, gen=["c05", "c06", "c14", "c15"])
+    ps = common.proof_stage(rep, PID, gen=["c05", "c06", "c14", "c15"],
+                            extra_targets=["model/KindInferCfg.vo"])
     rep.coverage["stage_seconds"] = {"proof": round(time.time() - rep.t0, 1)}
     programs, dist = gen_programs(tier, seed)
     scratch = tempfile.mkdtemp(prefix="c15_")
